@@ -286,3 +286,144 @@ def mentions(e: ast.AST, pred) -> bool:
 
 def names_in(e: ast.AST) -> set[str]:
     return {n.id for n in ast.walk(e) if isinstance(n, ast.Name)}
+
+
+def loop_escapes(fi: FunctionInfo, repo: Repo) -> list[tuple[ast.AST, str, ast.AST]]:
+    """Reads, after a ``for`` loop, of a plain local whose every reaching definition lies inside that
+    loop's body (including the loop target): the value is the one of the *last* iteration only.
+    Accumulators (bound before the loop as well) are not reported."""
+    fl = flow(fi, repo)
+    out = []
+    loops = [n for n in nodes(fi, (ast.For, ast.While))]
+    if not loops:
+        return out
+    for n in walk_no_nested(fi.node):
+        if not (isinstance(n, ast.Name) and isinstance(n.ctx, ast.Load)):
+            continue
+        # names bound by an enclosing comprehension / lambda are not function locals
+        shadowed = False
+        for a in ancestors(n, fi.node):
+            if isinstance(a, (ast.ListComp, ast.SetComp, ast.DictComp, ast.GeneratorExp)):
+                for g in a.generators:
+                    if n.id in {x.id for x in ast.walk(g.target) if isinstance(x, ast.Name)}:
+                        shadowed = True
+            if isinstance(a, ast.Lambda) and n.id in {x.arg for x in a.args.args}:
+                shadowed = True
+        if shadowed:
+            continue
+        try:
+            ds = fl.reaching(n.id, n)
+        except Exception:
+            continue
+        if not ds or any(d.kind in ("param", "import", "def") or d.stmt is None for d in ds):
+            continue
+        for lp in loops:
+            if is_inside(n, lp):
+                continue
+            inside = [d for d in ds if d.stmt is lp or (is_inside(d.stmt, lp) and field_of(d.stmt, lp) == "body")]
+            if len(inside) == len(ds):
+                out.append((n, n.id, lp))
+                break
+    return out
+
+
+def check_no_loop_escape(ctx, rule: str, prefixes: tuple[str, ...], minimum: int) -> None:
+    """Obligation per function with a loop under ``prefixes``: no per-iteration value is read after its loop."""
+    n = 0
+    for fi in ctx.repo.functions.values():
+        if not fi.rel.startswith(prefixes) or not nodes(fi, (ast.For, ast.While)):
+            continue
+        n += 1
+        ctx.touch(fi)
+        esc = loop_escapes(fi, ctx.repo)
+        ctx.ob(rule, f"{fi.short}/per-iteration-values-stay-in-their-loop", not esc, fi, esc[0][0] if esc else fi.node,
+               "a value bound only inside a loop body and read after the loop is the value of the last iteration: quantities that "
+               "belong to one index (IRF centre/width, scale, weight, label) must be collected per iteration",
+               [f"`{v}` read at line {u.lineno}, bound only inside the loop at line {lp.lineno}" for u, v, lp in esc[:4]] or None,
+               construct=short(stmt_of(esc[0][0]), 120) if esc else "def " + fi.name)
+    ctx.sites(rule, "functions with loops examined for escaping per-iteration values", n, minimum)
+
+
+def overflowing_exponentials(fi: FunctionInfo, repo: Repo) -> tuple[int, list[ast.Call]]:
+    """``exp`` calls whose argument's normal form is a sum of monomials with positive coefficients and
+    even powers only (a positive definite form such as ``alpha * alpha``): such a factor overflows on
+    its own where the complete exponent of the formula is moderate.  Returns (#exp calls seen, offenders)."""
+    fl = flow(fi, repo)
+    seen, bad = 0, []
+    for c in calls(fi):
+        if not (norm(c.func) in ("np.exp", "numpy.exp", "math.exp", "exp", "cmath.exp") and len(c.args) == 1):
+            continue
+        seen += 1
+        try:
+            t = fl.term(c.args[0], stmt_of(c))
+        except Exception:
+            continue
+        monos = [(m, co) for m, co in t.terms.items()]
+        nonconst = [m for m, _ in monos if m != ()]
+        if not nonconst:
+            continue
+        if all(co > 0 and all(e.denominator == 1 and e.numerator % 2 == 0 for _, e in m) for m, co in monos):
+            bad.append(c)
+    return seen, bad
+
+
+def check_no_overflowing_exp(ctx, rule: str, fns: list[FunctionInfo], minimum: int) -> None:
+    total = 0
+    for fi in fns:
+        seen, bad = overflowing_exponentials(fi, ctx.repo)
+        total += seen
+        if seen:
+            ctx.ob(rule, f"{fi.short}/no-exponential-of-a-positive-definite-form", not bad, fi, bad[0] if bad else fi.node,
+                   "splitting exp(a + b) into exp(a) * exp(b) with a = (rate*width)^2/2 >= 0 overflows (and the partner underflows) for "
+                   "rate*width >~ 37 although the product is moderate; every exponential must carry the complete exponent",
+                   [f"exp({norm(c.args[0])}) at line {c.lineno}" for c in bad[:3]] or None,
+                   construct=short(bad[0], 100) if bad else f"{seen} exp calls")
+    ctx.sites(rule, "exp calls examined for positive definite exponents", total, minimum)
+
+
+def check_filled_items_fresh(ctx, rule: str, prefixes: tuple[str, ...] = ("glotaran/optimization/",), minimum: int = 3) -> None:
+    """Model items filled with parameter values (`fill_item`) are per-evaluation values.
+
+    For every call of ``fill_item`` under ``prefixes``: (a) the parameters argument is the group's
+    *current* parameters read in the same function (``self.group.parameters``), (b) the call is not in a
+    constructor, (c) neither the result nor a container built from it is stored in an attribute."""
+    n = 0
+    for fi in ctx.repo.functions.values():
+        if not fi.rel.startswith(prefixes):
+            continue
+        cs = [c for c in calls(fi, nested=True) if (resolved(ctx.repo, fi, c.func) or "").endswith("model.item.fill_item") or norm(c.func) == "fill_item"]
+        if not cs:
+            continue
+        fl = flow(fi, ctx.repo)
+        ctx.touch(fi)
+        for c in cs:
+            n += 1
+            st = stmt_of(c)
+            par = c.args[2] if len(c.args) >= 3 else next((k.value for k in c.keywords if k.arg == "parameters"), None)
+            src = xnorm(fl, par, st) if par is not None else ""
+            if par is not None and isinstance(par, ast.Name):
+                ds = fl.reaching(par.id, st)
+                if ds and all(d.kind == "assign" and d.value is not None for d in ds):
+                    src = " | ".join(sorted({norm(d.value) for d in ds}))
+            cur = src in ("self.group.parameters", "self._group.parameters")
+            ctx.ob(rule, f"{fi.short}/filled-with-current-parameters", cur, fi, c,
+                   "the item is filled with the parameters the group holds *now* (`self.group.parameters`, replaced by the optimiser "
+                   "before every evaluation), read in the evaluating function itself", [f"parameters argument: {src or '?'}"],
+                   construct=short(c, 110))
+            in_init = fi.name in ("__init__", "__post_init__", "__attrs_post_init__")
+            stored = False
+            tgt_names = set()
+            if isinstance(st, ast.Assign):
+                for t in st.targets:
+                    if isinstance(t, (ast.Attribute, ast.Subscript)) and "self" in names_in(t):
+                        stored = True
+                    tgt_names |= {x.id for x in ast.walk(t) if isinstance(x, ast.Name)}
+            for t, s2 in stores(fi):
+                if isinstance(t, (ast.Attribute, ast.Subscript)) and "self" in names_in(t) and getattr(s2, "value", None) is not None \
+                        and tgt_names - {"self"} and (names_in(s2.value) & (tgt_names - {"self"})):
+                    stored = True
+            ctx.ob(rule, f"{fi.short}/filled-item-not-cached", not in_init and not stored, fi, st,
+                   "a filled item holds parameter *objects* of one parameter set; kept across evaluations it keeps the values of the "
+                   "set it was filled from (the optimiser works on a copy), so the matrix side and the clp side of an evaluation disagree",
+                   construct=short(st, 110))
+    ctx.sites(rule, "fill_item calls in the evaluation code", n, minimum)
